@@ -314,6 +314,12 @@ func (r *runner) peer(st Step) {
 			a = map[string]any{"t": "bad", "id": id, "err": false, "tag": tag}
 		case "strid": // a reply whose id is the STRING spelling of a number we use: a different id, it answers nothing
 			parts = append(parts, fmt.Sprintf(`{"jsonrpc":"2.0","id":"%s","result":%q}`, id, tag))
+		case "nullerr": // an error the peer addresses to nobody (it could not tell whom): nobody's reply, however few are waiting
+			parts = append(parts, fmt.Sprintf(`{"jsonrpc":"2.0","id":null,"error":{"code":-32700,"message":"tag=%s parse error"}}`, tag))
+		case "noiderr":
+			parts = append(parts, fmt.Sprintf(`{"jsonrpc":"2.0","error":{"code":-32600,"message":"tag=%s invalid request"}}`, tag))
+		case "nullres":
+			parts = append(parts, fmt.Sprintf(`{"jsonrpc":"2.0","id":null,"result":%q}`, tag))
 		case "bad":
 			parts = append(parts, fmt.Sprintf(`{"jsonrpc":"1.0","id":%s,"result":%q}`, id, tag))
 		case "note":
